@@ -27,7 +27,10 @@ def replaceAll (s old new : Str) : Str :=
   if old = [] then s else replGo old new 0 s
 
 /-- `strings.Contains(s, p)` -/
-def contains (s p : Str) : Bool := s.tails.any (fun t => p.isPrefixOf t)
+def contains (s p : Str) : Bool :=
+  match s with
+  | [] => p.isPrefixOf []
+  | c :: cs => p.isPrefixOf (c :: cs) || contains cs p
 
 /-- `strings.HasSuffix(s, p)` -/
 def hasSuffix (s p : Str) : Bool := p.isSuffixOf s
